@@ -59,16 +59,17 @@ def history_options(draw, mode):
     hand-over exactly on the per-point buffers' block boundary)."""
     if mode == 'block':
         return {'clm': 0.02, 'crz': 0.02, 'des': draw(st.sampled_from([0.02, 0.25, 0.5])),
-                'iterate': draw(st.sampled_from([True, True, False])), 'max_iters': draw(st.sampled_from([1, 2, 3, 3])),
-                'reltol': draw(st.sampled_from([1e-9, 1e-3, 1e-2, 0.05, 0.2]))}
+                'iterate': draw(st.sampled_from([True, True, False])), 'max_iters': draw(st.sampled_from([1, 2, 3, 3, 8])),
+                'reltol': draw(st.sampled_from([1e-9, 1e-6, 1e-5, 1e-4, 1e-3, 1e-2, 0.05, 0.2]))}
     weather = mode == 'weather'
     n = st.integers(2, 4) if weather else st.one_of(st.integers(2, 12), st.integers(2, 25))
     frac = st.one_of(n.map(lambda k: 1.0 / k), n.map(lambda k: 1.0 / (k + 0.5)))
     return {
         'clm': draw(frac), 'crz': draw(frac), 'des': draw(frac),
         'iterate': draw(st.booleans()),
-        'max_iters': draw(st.integers(1, 2) if weather else st.integers(1, 5)),
-        'reltol': draw(st.sampled_from([1e-9, 1e-3, 1e-2, 1e-2, 0.05, 0.2])),
+        'max_iters': draw(st.integers(1, 2) if weather else st.one_of(st.integers(1, 5), st.sampled_from([8, 12]))),
+        # tight tolerances (the leftover of the last descent segment alone is 1e-4..1e-5 of the trip fuel) to loose ones
+        'reltol': draw(st.sampled_from([1e-9, 1e-6, 1e-5, 1e-4, 1e-3, 1e-2, 1e-2, 0.05, 0.2])),
     }
 
 
@@ -93,9 +94,11 @@ _FID = st.sampled_from([None, None, 7, 7, 123456789, 2**40 + 1])  # per call: co
 _VALID = st.fixed_dictionaries({'a': st.just('valid'), 'mi': _MI, 'ti': _TI, 'fid': _FID})
 _VALID_MASS = st.fixed_dictionaries({'a': st.just('valid'), 'mi': _MI, 'ti': _TI, 'fid': _FID,
                                      'smf': st.floats(0.45, 0.98)})
+# low load factors: the first pass may be flyable while the corrected (lighter) mass of a later pass leaves the table
+_VALID_LOW = st.fixed_dictionaries({'a': st.just('valid'), 'mi': _MI, 'ti': _TI, 'fid': _FID, 'lf': st.floats(0.0, 0.35)})
 _INVALID = st.fixed_dictionaries({'a': st.just('invalid'), 'k': st.sampled_from(list(range(91))), 'mi': _MI, 'ti': _TI})
 WX_POOL = WX_KINDS + KINDS[:2] + WX_KINDS + KINDS[2:]  # weather histories: kind = WX_POOL[k % 13], others: KINDS[k % 7]
-ACTIONS = st.one_of(_VALID, _VALID, _VALID_MASS, st.just({'a': 'again'}), _INVALID, _INVALID, _INVALID)
+ACTIONS = st.one_of(_VALID, _VALID, _VALID_MASS, _VALID_LOW, st.just({'a': 'again'}), _INVALID, _INVALID, _INVALID)
 
 
 # --------------------------------------------------------------------------
@@ -237,6 +240,11 @@ class BuilderMachine(LoggedMachine):
                 ctx.fail('reject.reason', 'message', core.aeic_frame(e), kind, f'{kind}: {e!r} does not mention {mention!r}')
             elif kind == 'valid' and isinstance(e, RuntimeError) and not (o['iterate'] and 'converge' in str(e)):
                 ctx.fail('reject.reason', 'RuntimeError', core.aeic_frame(e), 'valid', f'unexpected {e!r}')
+            elif isinstance(e, RuntimeError) and 'converge' in str(e) and (e.__cause__ or e.__context__) is not None:
+                # "reports non-convergence" means the iterations ran out; a rejection of a later pass (corrected mass
+                # outside the envelope) re-labelled as non-convergence hides the original reason
+                ctx.fail('reject.reason', 'masked', core.aeic_frame(e), 'nonconvergence_wraps_rejection',
+                         f'{kind}: {e!r} replaces the original rejection {(e.__cause__ or e.__context__)!r}')
         else:
             ctx.label(f'{kind}:returned')
             traj = got[1]
@@ -257,6 +265,8 @@ class BuilderMachine(LoggedMachine):
                              f'(total_fuel_mass {tfm!r}, starting_mass {sm0!r}, final mass {last!r})')
                 else:
                     self.flags.add('iterated_within_tolerance')
+                    if o['reltol'] <= 1e-4:
+                        self.flags.add('iterated_within_tight_tolerance')
 
         # -- bookkeeping for the non-trivial rule
         key = core.short_hash([mdesc, tdesc, max_alt_ft, sm, kind])
@@ -275,15 +285,17 @@ class BuilderMachine(LoggedMachine):
         mi, ti = mi % len(ms), ti % len(ts)
         return ms[mi], (f'A{mi:02d}', f'B{mi:02d}'), ts[ti]
 
-    def _valid(self, mi, ti, smf, fid=None):
+    def _valid(self, mi, ti, smf, fid=None, lf=None):
         m, codes, t = self._pick(mi, ti)
         m = dict(m, fid=fid)
+        if lf is not None:
+            m['lf'] = lf
         sm = None
         if smf is not None:
             info = fc.table_info(t)
             sm = info['m_lo'] + smf * (info['m_hi'] - info['m_lo'])
         apt = {codes[0]: tuple(m['o']), codes[1]: tuple(m['d'])}
-        self.last_valid = (mi, ti, smf, fid)
+        self.last_valid = (mi, ti, smf, fid, lf)
         self._call('valid', m, codes, apt, t, None, sm)
 
     # One dispatching rule: Hypothesis' swarm testing switches whole rules off per example, which
@@ -293,7 +305,7 @@ class BuilderMachine(LoggedMachine):
         self.op('step', action=action)
         a = action['a']
         if a == 'valid':
-            self._valid(action['mi'], action['ti'], action.get('smf'), action.get('fid'))
+            self._valid(action['mi'], action['ti'], action.get('smf'), action.get('fid'), action.get('lf'))
         elif a == 'again':
             # repeat the most recent valid mission (whatever happened in between)
             if self.last_valid is not None:
